@@ -139,6 +139,10 @@ def _vec_into_iter(M, fr, n, a): return IterV(a[0].items)
 @reg(r'^core::slice::<impl \[.*\]>::iter(_mut)?$|^<&(mut )?std::vec::Vec<.*> as std::iter::IntoIterator>::into_iter$|^<&(mut )?\[.*\] as std::iter::IntoIterator>::into_iter$|^std::collections::VecDeque::iter$')
 def _slice_iter(M, fr, n, a):
     return IterV(elem_refs(M, a[0]), 'ref')
+@reg(r'^<std::collections::(HashSet|HashMap)<.*> as std::iter::IntoIterator>::into_iter$')
+def _hash_into_iter(M, fr, n, a):
+    # consuming iteration of a hash container: its elements in a nondeterministic order (hash_order is defined further down)
+    return IterV(hash_order(M, list(a[0].items), 'into_iter'))
 @reg(r'^<std::slice::Iter(Mut)?<.*> as std::iter::IntoIterator>::into_iter$|^<std::vec::IntoIter<.*> as std::iter::IntoIterator>::into_iter$|^<.* as std::iter::IntoIterator>::into_iter$')
 def _iter_ident(M, fr, n, a):
     if isinstance(a[0], Agg) and a[0].name == '[]': return IterV(list(a[0].f))
@@ -1828,6 +1832,48 @@ def _str_replace(M, fr, n, a):
         if p and i + len(p) <= len(s_.b) and M.branch(_match_at(s_, i, p)): out.extend(to); i += len(p)
         else: out.append(s_.b[i]); i += 1
     return Str(out)
+
+@reg(r'^time::convert::(\w+)::per::<time::convert::(\w+)>$|^time::convert::(\w+)::per$')
+def _time_per(M, fr, n, a):
+    """time::convert::X::per(Y): how many X make one Y (documented constants)"""
+    m = re.search(r'convert::(\w+)::per::<time::convert::(\w+)>', M.cur_callee)
+    if not m: raise Unsupported('time::convert per without unit arguments')
+    ns = {'Nanosecond': 1, 'Microsecond': 10 ** 3, 'Millisecond': 10 ** 6, 'Second': 10 ** 9, 'Minute': 60 * 10 ** 9, 'Hour': 3600 * 10 ** 9, 'Day': 86400 * 10 ** 9, 'Week': 7 * 86400 * 10 ** 9}
+    x, y = m.group(1), m.group(2)
+    if x not in ns or y not in ns or ns[y] % ns[x]: raise Unsupported('time::convert %s per %s' % (x, y))
+    return ns[y] // ns[x]
+
+@reg(r'^core::str::<impl str>::eq_ignore_ascii_case$|^std::string::String::eq_ignore_ascii_case$|^core::slice::ascii::<impl \[u8\]>::eq_ignore_ascii_case$')
+def _eq_ignore_ascii_case(M, fr, n, a):
+    x, y = as_str(M, a[0]), as_str(M, a[1])
+    if isinstance(x, SymStr) or isinstance(y, SymStr): raise Unsupported('eq_ignore_ascii_case on an opaque string')
+    if len(x.b) != len(y.b): return False
+    def low(b):
+        if isinstance(b, int): return b + 32 if 65 <= b <= 90 else b
+        return z3.If(z3.And(z3.UGE(b, 65), z3.ULE(b, 90)), b + 32, b)
+    return b_and(*[v_eq(low(p), low(q)) for p, q in zip(x.b, y.b)])
+
+@reg(r'^std::path::Path::(extension|file_name|file_stem)$')
+def _path_parts(M, fr, n, a):
+    """Path::{extension,file_name,file_stem} over a textual path (documented rules: the extension is the text after the last `.` of the
+    file name unless the name starts with its only `.`)"""
+    p = as_str(M, a[0]).conc()
+    if p is None: raise Unsupported('symbolic path text')
+    name = p.rstrip('/').rsplit('/', 1)[-1]
+    what = n.rsplit('::', 1)[1]
+    if what == 'file_name': return some(Ref(Cell(Str(name)))) if name not in ('', '..') else none()
+    if name in ('', '..'): return none()
+    i = name.rfind('.')
+    stem, ext = (name, None) if i <= 0 else (name[:i], name[i + 1:])
+    if what == 'file_stem': return some(Ref(Cell(Str(stem))))
+    return some(Ref(Cell(Str(ext)))) if ext is not None else none()
+@reg(r'^std::ffi::OsStr::to_str$|^std::path::Path::to_str$')
+def _osstr_to_str(M, fr, n, a): return some(Ref(Cell(as_str(M, a[0]))))       # paths in the models are UTF-8 text
+@reg(r'^std::option::Option::<.*>::and_then::<.*>$|^std::option::Option::and_then$')
+def _opt_and_then(M, fr, n, a):
+    o = a[0]
+    if disc_of(M, o) == 0: return none()
+    return M.call_closure(fr, a[1], [o.f[0]])
 
 # registered last: every specific Deref model above takes precedence
 @reg(r'^<.* as std::ops::Deref>::deref$')
